@@ -34,6 +34,7 @@ MUTANTS = [
     ("unfix-F12-log-snapshot-name", ["C14"], ["unfix_F12_log_snapshot_name.diff"], []),
     ("unfix-F14c-decline", ["C16"], ["unfix_F14c_decline.diff"], []),
     ("unfix-F17-epoch-hint-by-hash", ["C17"], ["unfix_F17_epoch_hint_by_hash.diff"], []),
+    ("unfix-F18-welcome-id-late", ["C16", "C06"], ["unfix_F18_welcome_id_late.diff"], []),
     ("c01-comparator-le", ["C01", "C07"], [], [(CORE + "epoch_snapshots.rs", "if candidate_ts < snapshot.applied_commit_ts {", "if candidate_ts <= snapshot.applied_commit_ts {")]),
     ("c01-id-tiebreak-le", ["C01", "C07"], [], [(CORE + "epoch_snapshots.rs", "if candidate_id.to_hex() < snapshot.applied_commit_id.to_hex() {", "if candidate_id.to_hex() <= snapshot.applied_commit_id.to_hex() {")]),
     ("c03-no-eviction-return", ["C03"], [], [(CORE + "messages/commit.rs", """        if mls_group.own_leaf().is_none() {
